@@ -52,6 +52,8 @@ def absFut : FutState → BV.Ash.Fut
   | .exc (.ncpFailure (some c)) => .ncpFailure c
   | .exc (.ncpFailure none) => .closed
   | .exc .runtimeError => .closed
+  | .exc .connectionReset => .closed
+  | .exc (.other _) => .closed
   | .cancelled => .closed
 
 theorem absFut_done (f : FutState) : (absFut f).done = f.done := by
